@@ -121,9 +121,10 @@ class ExprMixin:
         n = len(st.pc)
         st.pc.append(c)
         a = self.narrow(self.eval(node.body, st, want), want, st)
-        st.pc[n] = smt.Not(c)
+        self._pop_guard(st, n)
+        st.pc.append(smt.Not(c))
         b = self.narrow(self.eval(node.orelse, st, want), want, st)
-        del st.pc[n:]
+        self._pop_guard(st, n)
         if isinstance(a, list) or isinstance(b, list):
             w = want or (a.pt if isinstance(a, SV) else b.pt if isinstance(b, SV) else None)
             if w is None:
@@ -132,6 +133,14 @@ class ExprMixin:
         if isinstance(a, ObjRef) or isinstance(b, ObjRef):
             raise Unsupported("if-expression joining heap objects")
         return self.ops.ite_val(c, a, b)
+
+    def _pop_guard(self, st, n):
+        """Remove the temporary guard st.pc[n]; facts learnt under it (callee postconditions) stay, guarded."""
+        guard = st.pc[n]
+        tail = st.pc[n + 1:]
+        del st.pc[n:]
+        for f in tail:
+            st.pc.append(smt.Implies(guard, f))
 
     def narrow(self, v, want, st):
         """Opt[T] -> T where T is wanted: safe only if the value is not None on this path (obligation)."""
@@ -144,11 +153,15 @@ class ExprMixin:
         is_and = isinstance(node.op, ast.And)
         terms = []
         n = len(st.pc)
+        guards = []
         for v in node.values:
+            g = smt.And(*guards)
+            m = len(st.pc)
+            st.pc.append(g)
             t = self.ops.truthy(self.eval(v, st))
+            self._pop_guard(st, m)
             terms.append(t)
-            st.pc.append(t if is_and else smt.Not(t))
-        del st.pc[n:]
+            guards.append(t if is_and else smt.Not(t))
         return SV(smt.And(*terms) if is_and else smt.Or(*terms), BOOL)
 
     def ev_UnaryOp(self, node, st, want):
@@ -500,7 +513,33 @@ class ExprMixin:
         return tuple(self._comp(node, st))
 
     def ev_ListComp(self, node, st, want):
+        if len(node.generators) == 1 and not node.generators[0].ifs:
+            itv = self.eval(node.generators[0].iter, st)
+            if isinstance(itv, tuple) and itv and itv[0] == "#range" and len(itv) == 2:
+                return self.symbolic_listcomp(node, itv[1], st, want)
         return self._comp(node, st)
+
+    def symbolic_listcomp(self, node, count, st, want):
+        """[elt for v in range(n)] with symbolic n: a fresh list r with len(r) = max(n,0), r[i] = elt(i)."""
+        if want is None or want.kind != "arr":
+            raise Unsupported("list comprehension over a symbolic range needs an Arr[...] typed target")
+        n = self.ops.term(count, INT)
+        r = self.fresh("listcomp", want, st)
+        i = smt.Var(smt.fresh_name("i"), "Int")
+        sub = st.fork()
+        self.assign_target(node.generators[0].target, SV(i, INT), sub)
+        saved = self.spec_mode
+        self.spec_mode = True
+        try:
+            elt = self.eval(node.elt, sub, want.args[0])
+        finally:
+            self.spec_mode = saved
+        if isinstance(elt, list):
+            elt = self.list_to_sv(elt, want.args[0])
+        st.assume(smt.Eq(self.ops.arr_len(r), smt.Ite(smt.Ge(n, smt.Int(0)), n, smt.Int(0))))
+        st.assume(smt.Forall([(i.args[0], "Int")], smt.Implies(smt.And(smt.Le(smt.Int(0), i), smt.Lt(i, n)),
+                                                           smt.Eq(smt.Select(self.ops.arr_data(r), i), self.ops.term(elt, want.args[0])))))
+        return r
 
     def _comp(self, node, st):
         if len(node.generators) != 1:
